@@ -119,6 +119,7 @@ S_<TN_, TA_, TH_>::deepPreUpdate(FullControl& control) noexcept {
 						   Method::PRE_UPDATE);
 
 	ScopedOrigin origin{control, STATE_ID};
+	control._taskStatus.clear();
 
 	Head::widePreUpdate(control);
 	Head::	  preUpdate(control);
@@ -136,6 +137,7 @@ S_<TN_, TA_, TH_>::deepUpdate(FullControl& control) noexcept {
 						   Method::UPDATE);
 
 	ScopedOrigin origin{control, STATE_ID};
+	control._taskStatus.clear();
 
 	Head::wideUpdate(control);
 	Head::	  update(control);
@@ -153,6 +155,7 @@ S_<TN_, TA_, TH_>::deepPostUpdate(FullControl& control) noexcept {
 						   Method::POST_UPDATE);
 
 	ScopedOrigin origin{control, STATE_ID};
+	control._taskStatus.clear();
 
 	Head::	  postUpdate(control);
 	Head::widePostUpdate(control);
@@ -178,6 +181,7 @@ S_<TN_, TA_, TH_>::deepPreReact(EventControl& control,
 						   Method::PRE_REACT);
 
 	ScopedOrigin origin{control, STATE_ID};
+	control._taskStatus.clear();
 
 	Head::widePreReact(event, control);
 	(this->*method) (event, control);
@@ -203,6 +207,7 @@ S_<TN_, TA_, TH_>::deepReact(EventControl& control,
 						   Method::REACT);
 
 	ScopedOrigin origin{control, STATE_ID};
+	control._taskStatus.clear();
 
 	Head::wideReact(event, control);
 	(this->*method)(event, control);
@@ -228,6 +233,7 @@ S_<TN_, TA_, TH_>::deepPostReact(EventControl& control,
 						   Method::POST_REACT);
 
 	ScopedOrigin origin{control, STATE_ID};
+	control._taskStatus.clear();
 
 	(this->*method)	   (event, control);
 	Head::widePostReact(event, control);
